@@ -49,7 +49,7 @@ man = {
     "checks": checks,
     "not_applicable": not_app,
     "notes": "See DESIGN.md. Exit 0 = held on everything explored; exit 1 + VIOLATION line = violation; exit 2 = machinery failure. "
-             "KNOWN-FINDING lines refer to known_findings.json.",
+             "KNOWN-FINDING lines refer to known_findings.json and known_findings.d/*.json (ledger: FINDINGS.md); seeded changes: seeded/, SEEDED.md.",
 }
 json.dump(man, open(os.path.join(ROOT, "MANIFEST.json"), "w"), indent=1)
 print("MANIFEST.json: %d checks, %d not claimed" % (len(checks), len(not_app)))
